@@ -5,14 +5,14 @@ HARNESS = 'harness/c18.py'
 TRUSTED_BASE = [
     'Lean 4.33 kernel; axioms propext, Classical.choice, Quot.sound only (audited per theorem each run)',
     'hand-written small-step model lean/PysphVerif/Model/Controller.lean (one step = one Lock/Condition primitive plus the code up to the next one), tied to pysph/solver/controller.py by step-by-step differential execution of forced schedules (harness/c18.py)',
-    "the cooperative replacement of CPython's threading.Lock/RLock/Condition/current_thread in harness/c18.py (wait = enqueue+release atomically, FIFO notify) stands in for CPython's primitives and scheduler",
+    "the cooperative replacement of CPython's threading.Lock/RLock/Condition/current_thread in harness/c18.py (wait = enqueue+release atomically, FIFO notify; wait_for, timed waits and try-locks as further yield points; a thread that dies of an exception, a state with every thread blocked, and a thread that does not come back to the scheduler within 4 s are reported as property failures with the schedule as replay, never a hang) stands in for CPython's primitives and scheduler",
     'serial DummyComm for the MPI calls; func_dict empty; a stub solver object (dt, count, particles, one probe method)',
 ]
 ASSUMPTIONS = [
     'interleaving at synchronisation-primitive granularity (unsynchronised reads such as `while self.pause` are atomic with the adjacent primitive)',
     'one solver thread, any number of interface threads (model); 1-3 in the tie',
     'serial run (comm.Get_size() == 1); no callbacks registered with add_function',
-    'task ids are never reused while referenced (the code uses id(lock); the harness keeps locks alive)',
+    "task ids: controller.py's id(lock) is answered by a deterministic allocator in the harness (the id of a freed lock goes to the next lock created, as CPython's allocator does, but ids whose result was collected are never handed out again); per-command locks are not kept alive by the harness; on the unmodified code a lock lives until its result is collected, so ids never repeat (the model's counter), and uniqueness among uncollected tasks is checked on every run (C18:task-id-reused-while-outstanding)",
 ]
 READY = True
 DESIGN_REF = '6/C18'
